@@ -30,6 +30,18 @@ static bool CheckBlockHeader(const CBlock&, BlockValidationState& st, const Cons
 static bool CheckSignetBlockSolution(const CBlock&, const Consensus::Params&) { return g_sig; }
 static bool CheckMerkleRoot(const CBlock&, BlockValidationState& st) { if (!g_mrk) return st.Invalid(BlockValidationResult::BLOCK_MUTATED, "bad-txnmrklroot", "x"); return true; }
 #include "orig_CheckBlock.inc"
+// the BIP34 statement range of ContextualCheckBlock, original text, with the deployment test as an input
+static bool orig_bip34(const CBlock& block, const int nHeight, bool active, BlockValidationState& state)
+{
+    int pindexPrev = 0, chainman = 0; (void)pindexPrev; (void)chainman;
+#define DeploymentActiveAfter(a, b, c) (active)
+#include "orig_bip34_height.inc"
+#undef DeploymentActiveAfter
+    return true;
+}
+struct xBV { unsigned char* data; size_t size, cap; };
+extern "C" bool xc_ContextualCheckBlock_bip34(const xBV*, int, bool, xState*);
+static std::vector<unsigned char> ref_height_push(int h) { if (h == 0) return {0x00}; if (h <= 16) return {(unsigned char)(0x50 + h)}; std::vector<unsigned char> b; unsigned v = (unsigned)h; while (v) { b.push_back(v & 0xff); v >>= 8; } if (b.back() & 0x80) b.push_back(0); std::vector<unsigned char> r{(unsigned char)b.size()}; r.insert(r.end(), b.begin(), b.end()); return r; }
 
 static CScript sigops_script(unsigned n) { CScript s; for (unsigned k = 0; k < n / 20; k++) s << OP_CHECKMULTISIG; for (unsigned k = 0; k < n % 20; k++) s << OP_CHECKSIG; return s; }
 static CTransactionRef mk(bool coinbase, unsigned out_sigops, unsigned in_sigops, unsigned tag, bool bad = false) { CMutableTransaction m; m.vin.resize(1); if (coinbase) { m.vin[0].prevout.SetNull(); m.vin[0].scriptSig = CScript() << tag << OP_0; } else { m.vin[0].prevout = COutPoint(Txid::FromUint256(uint256{(uint8_t)(1 + tag % 200)}), tag); m.vin[0].scriptSig = sigops_script(in_sigops); }
@@ -79,6 +91,15 @@ int main(int argc, char** argv)
           uint64_t a0 = r.below(1100000), a1 = a0 + r.below(1000000); if (r.below(3) == 0) { a0 = 1000000 - r.below(2); a1 = 1000000 + r.below(3); } xBlock xw{false, 1, a0, a1, nullptr, nullptr, nullptr, nullptr, true, true, true}; xState xs{0, 0, 0}; bool okw = xc_ContextualCheckBlock_weight_limit(&xw, &xs); rv::g_stats.inputs++;
           if (xc_GetBlockWeight(&xw) != (int64_t)(3 * a0 + a1) || okw != (3 * a0 + a1 <= 4000000)) DIS("weight fragment"); }
     }
+    { static const int HS[] = {0, 1, 2, 15, 16, 17, 18, 127, 128, 129, 255, 256, 32767, 32768, 65535, 65536, 227931, 840000, 8388607, 8388608, 16777216, 2147483646, 2147483647};
+      for (uint64_t it = 0; it < n; it++) { int h = r.below(3) ? HS[r.below(sizeof(HS) / sizeof(HS[0]))] : (int)(r.next() & 0x7fffffff) >> (int)r.below(31); std::vector<unsigned char> want = ref_height_push(h), sg = want; int pert = (int)r.below(8);
+          if (pert == 1 && !sg.empty()) sg.back() ^= 1; if (pert == 2) sg.pop_back(); if (pert == 3 && sg.size() > 1) { sg[0]++; sg.push_back(0); } if (pert == 4 && sg.size() > 1) { sg.insert(sg.begin(), 0x4c); } if (pert == 5) sg = ref_height_push(h + (h < 2147483647 ? 1 : -1)); if (pert == 6) sg.clear();
+          size_t junk = r.below(4); for (size_t k = 0; k < junk && pert != 2 && pert != 6; k++) sg.push_back((unsigned char)r.next()); bool active = r.below(6) != 0;
+          CBlock b; CMutableTransaction m; m.vin.resize(1); m.vin[0].prevout.SetNull(); m.vin[0].scriptSig = CScript(sg.begin(), sg.end()); m.vout.resize(1); b.vtx.push_back(MakeTransactionRef(m));
+          BlockValidationState st; bool got = orig_bip34(b, h, active, st); bool wantok = !active || (sg.size() >= want.size() && std::equal(want.begin(), want.end(), sg.begin())); rv::g_stats.inputs++;
+          unsigned char buf[128] = {0}; memcpy(buf, sg.data(), sg.size()); xBV xs{buf, sg.size(), sg.size()}; xState xst{0, 0, 0}; bool xg = xc_ContextualCheckBlock_bip34(&xs, h, active, &xst);
+          if (got != xg) DIS("BIP34 fragment height %d", h);
+          if (got != wantok || (!got && st.GetRejectReason() != "bad-cb-height")) BAD("BIP34 check at height %d (active %d) on a coinbase scriptSig of %zu bytes starting %02x: %d, expected %d", h, active, sg.size(), sg.empty() ? 0 : sg[0], got, wantok); } }
     rv::report();
     return rv::g_stats.real_violations ? 1 : (rv::g_stats.disagreements ? 3 : 0);
 }
